@@ -394,7 +394,8 @@ func (p *Parser) InteractiveSeq(r io.Reader) iter.Seq2[[]*Stmt, error] {
 				if !yield(w.accumulated, nil) {
 					return
 				}
-				w.accumulated = w.accumulated[:0]
+				// Start a new slice, as the consumer may hold on to the one we yielded.
+				w.accumulated = nil
 				// The callback above would already print "$ ", so we
 				// don't want the subsequent wrappedReader.Read to cause
 				// another "$ " print thinking that nothing was parsed.
